@@ -356,3 +356,51 @@ def return_defs(body):
             else:
                 out.append(("other", d[1], st))
     return out
+
+
+def option_root(body, o, limit=24):
+    """Root of an operand after following plain copies/moves, references (`&x`), dereferences and
+    `Some(x)` re-wraps: ('param', i) | ('local', l) | ('const', v) | ('other', what)."""
+    p = op_place(o)
+    if p is None:
+        return ("const", o.get("v", o.get("str", "?")))
+    l = place_local(p)
+    for _ in range(limit):
+        if 1 <= l <= body.argc and not body.defs().get(l):
+            return ("param", l)
+        ds = body.defs().get(l, [])
+        if len(ds) != 1:
+            return ("param", l) if 1 <= l <= body.argc else ("local", l)
+        d = ds[0]
+        if d[0] == "call":
+            t = d[2]
+            f = t.get("f", "")
+            if f in ("core::ops::deref::Deref::deref", "core::convert::AsRef::as_ref", "core::option::Option::<T>::as_ref", "core::option::Option::<T>::as_deref",
+                     "core::clone::Clone::clone", "core::borrow::Borrow::borrow") and t["args"]:
+                q = op_place(t["args"][0])
+                if q is None:
+                    return ("other", f)
+                l = place_local(q)
+                continue
+            return ("local", l)
+        st = d[3]
+        r = st.get("r")
+        if r in ("use", "cast"):
+            q = op_place(st["o"][0])
+            if q is None:
+                return ("const", st["o"][0].get("v", "?"))
+            l = place_local(q)
+            continue
+        if r in ("ref", "rawptr"):
+            l = place_local(st["p"])
+            continue
+        if r == "agg" and st.get("adt") == "core::option::Option" and st.get("variant") == "Some" and st["o"]:
+            q = op_place(st["o"][0])
+            if q is None:
+                return ("const", "?")
+            l = place_local(q)
+            continue
+        if r == "agg" and st.get("adt") == "core::option::Option" and st.get("variant") == "None":
+            return ("const", "None")
+        return ("local", l)
+    return ("local", l)
